@@ -152,6 +152,29 @@ fn cross<CS: BbsCiphersuite, CS2: BbsCiphersuite>(rep: &Report, ck: &str, c: &Ca
         with_slot.extend(cm.iter().cloned());
         reject(&p, x.verify(pk, Some(&with_slot), hdr).is_ok(), "signer + blind factor octets + committed")?;
     }
+    // the degenerate blind artefacts: issued without a commitment (and presented without a prover blind) they cover
+    // the signer messages plus an empty blinding slot; the plain verifiers must refuse them all the same
+    if let Ok(b0) = BlindSignature::<BBSplus<CS>>::blind_sign(sk, pk, None, hdr, Some(&msgs)) {
+        if let Ok(x) = Signature::<BBSplus<CS>>::from_bytes(&b0.to_bytes()) {
+            let p = format!("blindsig-without-commitment({0},blind)->verify({0},plain)", sn);
+            reject(&p, x.verify(pk, Some(&msgs), hdr).is_ok(), "signer messages")?;
+            let mut with_slot = msgs.clone();
+            with_slot.push(vec![0u8; 32]);
+            reject(&p, x.verify(pk, Some(&with_slot), hdr).is_ok(), "signer messages + 32 zero octets")?;
+            // ... also right after the blind verifier has accepted it, and on a second attempt
+            let _ = b0.verify_blind_sign(pk, hdr, Some(&msgs), None, None);
+            reject(&p, x.verify(pk, Some(&msgs), hdr).is_ok(), "signer messages, after verify_blind_sign accepted the same octets")?;
+        }
+        if let Ok(bp0) = PoKSignature::<BBSplus<CS>>::blind_proof_gen(pk, &b0.to_bytes(), hdr, phd, Some(&msgs), None, Some(&di), None, None) {
+            let p = format!("blindproof-without-commitment({0},blind)->proof_verify({0},plain)", sn);
+            reject(&p, bp0.proof_verify(pk, Some(&dm), Some(&di), hdr, phd).is_ok(), "signer part")?;
+        }
+    }
+    // and the other way round: a plain signature offered as a blind signature issued without commitment
+    if let Ok(x) = BlindSignature::<BBSplus<CS>>::from_bytes(&sig.to_bytes()) {
+        let p = format!("sig({0},plain)->verify_blind_sign({0},blind)", sn);
+        reject(&p, x.verify_blind_sign(pk, hdr, Some(&msgs), Some(&[]), None).is_ok(), "no committed messages (empty list), no blind")?;
+    }
     {
         let p = format!("blindproof({0},blind)->proof_verify({0},plain)", sn);
         let ci: Vec<usize> = di.iter().cloned().chain(dci.iter().map(|j| j + l + 1)).collect();
@@ -346,7 +369,7 @@ pub fn run(ctx: &Ctx, rep: &Report) -> Meta {
     run_cases(ctx, rep, "generator-sets", ctx.tier.pick(200, 1500), 100, || gen_strat(maxn), |c| gen_check(rep, "generator-sets", c, false));
     Meta {
         rule: "(a) honest plain signature / plain proof / commitment / blind signature / blind proof under suite s, each handed to every verifier of the other suite (same key octets and the key derived from the same material) \
-               and to the other interface of the same suite in every consistent presentation (L = all / 0 / None / L-1, trailing messages as committed, blinding slot filled, combined lists); oracle: Err; \
+               and to the other interface of the same suite in every consistent presentation (L = all / 0 / None / L-1, trailing messages as committed, blinding slot filled, combined lists); the blind signature and blind proof issued WITHOUT a commitment handed to the plain verifiers (also right after the blind verifier accepted the same octets), a plain signature offered as such a blind signature; oracle: Err; \
                (b) generator requests (n <= 64 quick / 512 thorough, api_ids {None, empty, plain, blind, BLIND_-prefixed, random ASCII}, both suites): create(n,a)[..k] = create(k,a) (all k for the exhaustive list, sampled otherwise), \
                no identity, no P1 of either suite, no G1 base point, no repetition, sets of different (suite, api_id) disjoint, None = empty api_id; \
                an honest commitment validated through deserialize_and_validate_commit under nine foreign interface identifiers (plain, other suite, empty, custom, padded to 200 / 251 / 252 / 255 / 300 octets); prepare_parameters compared with create(L, a) ++ create(M, BLIND_ || a) for every api_id spelling; generator requests under contention; non-trivial = a cross pair with (s', i') != (s, i) or a generator request with n >= 2; evaluations = foreign verifications + set judgements"
